@@ -36,6 +36,7 @@ func checkC20(ctx *Ctx, r *Report) {
 	c20UnionsNonEmptyInSchemas(ctx, r)
 	c20ThirdHunt(ctx, r)
 	c20FourthHunt(ctx, r)
+	c20FifthHunt(ctx, r)
 	c20UnionSingleMember(ctx, r)
 }
 
@@ -1741,4 +1742,215 @@ func c20FourthHunt(ctx *Ctx, r *Report) {
 	}
 	r.Count("hunted clauses of the configuration (4th hunt)", n)
 	r.Floor("hunted clauses of the configuration (4th hunt)", 30)
+}
+
+// c20FifthHunt — fifth hunt of C20:
+//   - the loaders validate the types nested in a description (Type.Validate recurses, the validation of arguments,
+//     constants and properties calls it): every field of type ast.Type on which a Validate method of cog calls
+//     `.Validate()` carries the tag the published schemas read `required` from;
+//   - yaml.v3 converts scalars (12 → "12", 1.9 → 1, "yes" → true): the scalar case of the shape walk compares the
+//     resolved tag of the node with the kind of its destination — string, boolean, integer and float kinds;
+//   - an `inputs` entry is checked when the file is loaded, not when (and if) the input is read;
+//   - the shape walk takes for a merge key what the decoder takes for one: the key `<<`.
+func c20FifthHunt(ctx *Ctx, r *Report) {
+	n := 0
+	// (a)
+	tags := map[*types.Var]string{}
+	var astPkg *packages.Package
+	for _, rel := range []string{"internal/ast", "internal/veneers", "internal/veneers/option", "internal/veneers/builder"} {
+		p := ctx.Pkg(rel)
+		if p == nil {
+			continue
+		}
+		if rel == "internal/ast" {
+			astPkg = p
+		}
+		scope := p.Types.Scope()
+		for _, name := range scope.Names() {
+			tn, ok := scope.Lookup(name).(*types.TypeName)
+			if !ok {
+				continue
+			}
+			st, ok := tn.Type().Underlying().(*types.Struct)
+			if !ok {
+				continue
+			}
+			for i := 0; i < st.NumFields(); i++ {
+				tags[st.Field(i)] = st.Tag(i)
+			}
+		}
+	}
+	if astPkg == nil {
+		r.Undecided("anchor lost: internal/ast")
+		return
+	}
+	demanded := map[*types.Var]token.Pos{}
+	ctx.AllFuncDecls(func(p *packages.Package, fd *ast.FuncDecl, obj *types.Func) {
+		if fd.Body == nil || fd.Name.Name != "Validate" || fd.Recv == nil {
+			return
+		}
+		info := p.TypesInfo
+		ast.Inspect(fd.Body, func(m ast.Node) bool {
+			c, ok := m.(*ast.CallExpr)
+			if !ok {
+				return true
+			}
+			sel, ok := ast.Unparen(c.Fun).(*ast.SelectorExpr)
+			if !ok || sel.Sel.Name != "Validate" {
+				return true
+			}
+			fsel, ok := ast.Unparen(sel.X).(*ast.SelectorExpr)
+			if !ok {
+				return true
+			}
+			f, ok := info.Uses[fsel.Sel].(*types.Var)
+			if !ok || !f.IsField() || namedName(f.Type()) != "Type" {
+				return true
+			}
+			if named := namedOf(f.Type()); named == nil || named.Obj().Pkg() != astPkg.Types {
+				return true
+			}
+			if _, known := tags[f]; known {
+				if _, seen := demanded[f]; !seen {
+					demanded[f] = c.Pos()
+				}
+			}
+			return true
+		})
+	})
+	var fields []*types.Var
+	for f := range demanded {
+		fields = append(fields, f)
+	}
+	sort.Slice(fields, func(i, j int) bool { return demanded[fields[i]] < demanded[fields[j]] })
+	for _, f := range fields {
+		owner := "?"
+		for _, rel := range []string{"internal/ast", "internal/veneers", "internal/veneers/option", "internal/veneers/builder"} {
+			if p := ctx.Pkg(rel); p != nil {
+				for _, name := range p.Types.Scope().Names() {
+					if tn, ok := p.Types.Scope().Lookup(name).(*types.TypeName); ok {
+						if st, ok := tn.Type().Underlying().(*types.Struct); ok {
+							for i := 0; i < st.NumFields(); i++ {
+								if st.Field(i) == f {
+									owner = name
+								}
+							}
+						}
+					}
+				}
+			}
+		}
+		n++
+		r.Check(strings.Contains(tags[f], `jsonschema:"required"`), "cfgschema/nested-types-required", owner+"."+f.Name()+" is validated by the loaders", demanded[f], "the published schemas require it",
+			fmt.Sprintf("a Validate method calls %s.%s.Validate(), which refuses a type left out (`unknown type kind ''`), and the field does not carry the `jsonschema:\"required\"` tag the published schemas read: `fields: [{name: x}]`, `array: {}`, an argument or an enum member without type validate in an editor and are refused by the loader", owner, f.Name()))
+	}
+	r.Count("nested types validated by the loaders", len(fields))
+	r.Floor("nested types validated by the loaders", 6)
+	// (b) (d)
+	if p := ctx.Pkg("internal/yaml"); p == nil {
+		r.Undecided("anchor lost: internal/yaml")
+	} else if fd, _ := ctx.DeclOf(ctx.LookupFunc("internal/yaml", "checkDocumentShape")); fd == nil {
+		r.Undecided("anchor lost: yaml.checkDocumentShape")
+	} else {
+		info := p.TypesInfo
+		kinds := map[string]bool{}
+		readsTag := false
+		ast.Inspect(fd.Body, func(m ast.Node) bool {
+			cc, ok := m.(*ast.CaseClause)
+			if !ok || len(cc.List) != 1 || !strings.HasSuffix(exprString(cc.List[0]), "ScalarNode") {
+				return true
+			}
+			bodies := []ast.Node{cc}
+			for _, st := range cc.Body {
+				ast.Inspect(st, func(q ast.Node) bool {
+					if c, ok := q.(*ast.CallExpr); ok {
+						if f := callee(info, c); f != nil && f.Pkg() == p.Types {
+							if gd, _ := ctx.DeclOf(f); gd != nil && gd != fd {
+								bodies = append(bodies, gd.Body)
+							}
+						}
+					}
+					return true
+				})
+			}
+			for _, b := range bodies {
+				ast.Inspect(b, func(q ast.Node) bool {
+					switch x := q.(type) {
+					case *ast.CaseClause:
+						for _, e := range x.List {
+							if s := exprString(e); strings.HasPrefix(s, "reflect.") {
+								kinds[strings.TrimPrefix(s, "reflect.")] = true
+							}
+						}
+					case *ast.SelectorExpr:
+						if x.Sel.Name == "ShortTag" || x.Sel.Name == "Tag" {
+							readsTag = true
+						}
+					}
+					return true
+				})
+			}
+			return false
+		})
+		var missing []string
+		for _, k := range []string{"String", "Bool", "Int", "Int64", "Float64"} {
+			if !kinds[k] {
+				missing = append(missing, k)
+			}
+		}
+		n++
+		r.Check(readsTag && len(missing) == 0, "cfgschema/scalars-checked-against-destination", "yaml.checkDocumentShape meets a scalar", fd.Pos(), "its resolved tag is compared with the kind of its destination (string, boolean, integer, float)",
+			fmt.Sprintf("the scalar case of the shape walk does not compare the tag of the node with the kind of its destination (kinds not handled: %v): yaml.v3 converts instead of refusing — `package: 12` is the string \"12\", `argument_index: 1.9` is 1, `debug: \"yes\"` is true — while the published schemas refuse all three", missing))
+		mergeAsDecoder := false
+		ast.Inspect(fd.Body, func(m ast.Node) bool {
+			if is, ok := m.(*ast.IfStmt); ok {
+				c := exprString(is.Cond)
+				if strings.Contains(c, `"!!merge"`) {
+					mergeAsDecoder = strings.Contains(c, `.Value == "<<"`)
+				}
+			}
+			return true
+		})
+		n++
+		r.Check(mergeAsDecoder, "cfgschema/merge-key-as-the-decoder", "yaml.checkDocumentShape recognises a merge key", fd.Pos(), "the key `<<`, as the decoder does",
+			"the shape walk takes every key tagged !!merge for a merge key, the decoder only the key `<<`: `!!merge passes: [~]` is the key passes for the decoder and the null rule entry behind it is never looked at")
+	}
+	// (c)
+	if fn := ctx.LookupFunc("internal/codegen", "PipelineFromFile"); fn == nil {
+		r.Undecided("anchor lost: codegen.PipelineFromFile")
+	} else if fd, p := ctx.DeclOf(fn); fd != nil {
+		info := p.TypesInfo
+		checked := false
+		ast.Inspect(fd.Body, func(m ast.Node) bool {
+			rs, ok := m.(*ast.RangeStmt)
+			if !ok || !strings.HasSuffix(exprString(rs.X), ".Inputs") {
+				return true
+			}
+			ast.Inspect(rs.Body, func(q ast.Node) bool {
+				is, ok := q.(*ast.IfStmt)
+				if !ok || !endsInExit(is.Body) {
+					return true
+				}
+				probe := ast.Node(is.Cond)
+				if is.Init != nil {
+					probe = is.Init
+				}
+				ast.Inspect(probe, func(z ast.Node) bool {
+					if c, ok := z.(*ast.CallExpr); ok {
+						if f := callee(info, c); f != nil && (f.Name() == "loader" || f.Name() == "OneMemberOnly") {
+							checked = true
+						}
+					}
+					return true
+				})
+				return true
+			})
+			return true
+		})
+		n++
+		r.Check(checked, "cfgschema/inputs-checked-at-load", "codegen.PipelineFromFile checks the entries of inputs", fd.Pos(), "every entry describes one input, whatever its condition",
+			"the one-input-per-entry check sits in the code that reads the input, which is not reached when the `if` of the entry is false: `inputs: [{if: '1 == 2'}]` and an entry with two inputs load, while schemas/pipeline.json (oneOf) refuses both")
+	}
+	r.Count("hunted clauses of the configuration rules (5th hunt)", n)
+	r.Floor("hunted clauses of the configuration rules (5th hunt)", 9)
 }
